@@ -10,6 +10,15 @@ def instances():
             for kind, sp in (('left', None), ('right', None), ('stride', None), ('lpad', 'D'), ('rpad', 'D'), ('lpad', 4), ('rpad', 4)):
                 if kind in ('lpad', 'rpad') and t in ('u8', 'u16') and sp == 4: continue
                 for acc in ('def', 'st'): out.append((kind, sp, t, pat, acc))
+    # accessors with a non-pointer handle and proxy reference (px), with an EMPTY handle type (eh: outer pair EN/EE under emulation),
+    # and a user-defined layout policy (ulog)
+    for pat in ((None,), (None, None), (3, 4), (None, 3, None)):
+        for kind, sp in (('left', None), ('right', None), ('stride', None), ('lpad', 'D')):
+            for acc in ('px', 'eh', 'sh'): out.append((kind, sp, 'i32', pat, acc))
+    for t in ('i32', 'u8'):
+        for pat in ((), (None,), (None, None), (3, None), (2, 3, 2)):
+            for acc in ('def', 'st', 'px'): out.append(('ulog', None, t, pat, acc))
+            for acc in ('def', 'sh'): out.append(('urev', None, t, pat, acc))
     return out
 def key(i):
     kind, sp, t, pat, acc = i
@@ -23,9 +32,9 @@ def sources(ntu=32, insts=None):
     for n, i in enumerate(insts if insts is not None else instances()):
         kind, sp, t, pat, acc = i
         E = cxx_extents(t, pat); spv = 'md::dynamic_extent' if sp in (None, 'D') else str(sp)
-        lay = {'left': 'md::layout_left', 'right': 'md::layout_right', 'stride': 'md::layout_stride', 'lpad': 'mdx::layout_left_padded<%s>' % spv, 'rpad': 'mdx::layout_right_padded<%s>' % spv}[kind]
-        A = 'md::default_accessor<int>' if acc == 'def' else 'StAcc<int>'
-        A2 = 'md::default_accessor<const int>' if acc == 'def' else 'StAcc<const int>'
+        lay = {'left': 'md::layout_left', 'right': 'md::layout_right', 'stride': 'md::layout_stride', 'lpad': 'mdx::layout_left_padded<%s>' % spv, 'rpad': 'mdx::layout_right_padded<%s>' % spv, 'ulog': 'LogLayout', 'urev': 'RevLayout'}[kind]
+        A = {'def': 'md::default_accessor<int>', 'st': 'StAcc<int>', 'px': 'PxAcc<int>', 'eh': 'EhAcc<int>', 'sh': 'ShiftAcc<int>'}[acc]
+        A2 = {'def': 'md::default_accessor<const int>', 'st': 'StAcc<const int>', 'px': 'PxAcc<const int>', 'eh': 'EhAcc<const int>', 'sh': 'ShiftAcc<const int>'}[acc]
         E2 = cxx_extents(t2(t), [None] * len(pat))
         tus[n % ntu].append('  regView<%s, %s, %s, %s, md::mdspan<const int, %s, %s, %s>>("%s");' % (KINDS[kind], E, spv, A, E2, lay, A2, key(i)))
     srcs = [('view_tu%d.cpp' % i, '#include "viewsrv.hpp"\nusing namespace vh;\nvoid reg_view_%d() {\n%s\n}\n' % (i, '\n'.join(b))) for i, b in enumerate(tus)]
@@ -33,4 +42,4 @@ def sources(ntu=32, insts=None):
     return srcs
 
 def lite(insts):
-    return [i for i in insts if i[2] in ('i32', 'u8') and i[1] in (None, 'D')]
+    return [i for i in insts if i[2] in ('i32', 'u8') and i[1] in (None, 'D') and (i[4] in ('def', 'st') or len(i[3]) == 2)]
